@@ -725,7 +725,7 @@ lemma_f!(f_short_main, GShort, sym_short, 48, 12, None::<u32>, false, 52, 7, fal
 lemma_f!(f_normal_main, GNormal, sym_normal, 128, 32, None::<u32>, false, 132, 7, true);
 //@ h=f_normall_main props=C01,C10,C11,C15 cfgs=K1 tier=t t=1800 | funcs: inner::Generator<NormalWithLongChecksum>::finalize_with_options | bound: as f_short_main with 128 counters, but the three quartiles are ANY q1<=q2<=q3 (superset of the real order statistics; the honest order-statistic model is used on the 48-counter instance of the same generic code), 3-byte checksum | stubs: select_nth_unstable order-statistic model; FuzzyHashLengthEncoding::new contract
 lemma_f!(f_normall_main, GNormalL, sym_normal_l, 128, 32, None::<u32>, false, 132, 7, true);
-//@ h=f_long_main props=C01,C10,C11,C15 cfgs=K1 tier=q t=2400 | funcs: inner::Generator<Long>::finalize_with_options, naive aggregate_256 | bound: as f_short_main with 256 counters, but the three quartiles are ANY q1<=q2<=q3 (superset of the real order statistics) | stubs: select_nth_unstable order-statistic model; FuzzyHashLengthEncoding::new contract
+//@ h=f_long_main props=C01,C10,C11,C15 cfgs=K1 tier=t t=3600 | funcs: inner::Generator<Long>::finalize_with_options, naive aggregate_256 | bound: as f_short_main with 256 counters, but the three quartiles are ANY q1<=q2<=q3 (superset of the real order statistics) | stubs: select_nth_unstable order-statistic model; FuzzyHashLengthEncoding::new contract
 lemma_f!(f_long_main, GLong, sym_long, 256, 64, None::<u32>, false, 260, 7, true);
 //@ h=f_longl_main props=C01,C10,C11,C15 cfgs=K1 tier=t t=2400 | funcs: inner::Generator<LongWithLongChecksum>::finalize_with_options | bound: as f_short_main with 256 counters, but the three quartiles are ANY q1<=q2<=q3 (superset of the real order statistics), 3-byte checksum | stubs: select_nth_unstable order-statistic model; FuzzyHashLengthEncoding::new contract
 lemma_f!(f_longl_main, GLongL, sym_long_l, 256, 64, None::<u32>, false, 260, 7, true);
@@ -737,3 +737,303 @@ lemma_f!(f_short_q10, GShort, sym_short, 48, 12, Some(10u32), true, 52, 0, false
 lemma_f!(f_normal_q8, GNormal, sym_normal, 128, 32, Some(8u32), true, 132, 0, true);
 //@ h=f_long_q8 props=C01 cfgs=K1 tier=t t=3000 | funcs: inner::Generator<Long>::finalize_with_options (Q-ratio arithmetic) | bound: third quartile < 2^8 | stubs: as f_short_q8 | assume: q3 < 256
 lemma_f!(f_long_q8, GLong, sym_long, 256, 64, Some(8u32), true, 260, 0, true);
+
+// ------------------------------------------------------------------ C11: length arithmetic
+//
+// Inductive invariant over the number of bytes fed so far (ghost u64 `fed`):
+//   fed < 4  => tail_len = fed, len = 0
+//   fed >= 4 => tail_len = 4,   len = min(fed - 4, 2^32 - 4)
+// One update with a piece of n bytes from ANY state satisfying Inv(fed) re-establishes
+// Inv(fed + n), consumes exactly the bytes that fit below the 2^32-4 mark (call trace), never
+// overflows (Kani's overflow checks), and processed_len() == (fed' < 2^32 ? Some(fed') : None).
+// `len` is symbolic here (whole u32 range), which makes memcpy sizes symbolic: smallest state only.
+
+const MAXL: u64 = (u32::MAX - 3) as u64;
+
+macro_rules! lemma_len {
+    ($name:ident, $ty:ty, $sym:ident, $ck:literal, $mtag:expr, $n:literal) => {
+        #[kani::proof]
+        #[kani::unwind(40)]
+        #[kani::stub(crate::pearson::tlsh_b_mapping_48, stub_map48)]
+        #[kani::stub(crate::pearson::tlsh_b_mapping_256, stub_map256)]
+        #[kani::stub(crate::buckets::FuzzyHashBucketsData::increment, stub_inc)]
+        fn $name() {
+            let stubbed = stubs_active();
+            let fed: u64 = kani::any();
+            kani::assume(fed >= 4); // (fed < 4 is covered by the concrete-length lemmas s_*_{0..3}_*)
+            let len64 = if fed - 4 < MAXL { fed - 4 } else { MAXL };
+            let g0: $ty = $sym(len64 as u32, 4);
+            let piece: [u8; $n] = kani::any();
+            unsafe {
+                RET = kani::any();
+            }
+            log_reset();
+            let mut a = g0.clone();
+            a.update(&piece);
+            let room = MAXL - len64;
+            let consumed: u64 = if ($n as u64) < room { $n as u64 } else { room };
+            // invariant re-established for fed + n
+            let fed2 = fed + $n as u64;
+            let len2 = if fed2 - 4 < MAXL { fed2 - 4 } else { MAXL };
+            assert!(a.len as u64 == len2);
+            assert!(a.len as u64 == len64 + consumed);
+            assert!(a.tail_len == 4);
+            assert!(a.processed_len() == if fed2 <= u32::MAX as u64 { Some(fed2 as u32) } else { None });
+            if stubbed {
+                let ck0: [u8; $ck] = *g0.checksum.data();
+                let mut r = RefGen::<$ck> {
+                    win: g0.tail, tl: 4, ck: ck0, consumed: 0, j: 0, ok: true, mtag: $mtag,
+                };
+                let mut i = 0;
+                while i < $n {
+                    if (i as u64) < consumed {
+                        r.feed(piece[i]);
+                    }
+                    i += 1;
+                }
+                assert!(r.ok);
+                assert!(r.j == unsafe { LOG_N });
+                assert!(a.tail == r.win);
+                assert!(*a.checksum.data() == r.ck);
+            }
+            kani::cover!(consumed == 0 && fed > 1u64 << 33);
+            kani::cover!(consumed > 0 && consumed < $n as u64);
+            kani::cover!(consumed == $n as u64 && fed2 - 4 == MAXL);
+        }
+    };
+}
+//@ h=len_short_1 props=C11,C03 cfgs=K0 tier=q t=1800 | funcs: inner::Generator<Short>::update, processed_len | bound: ANY number of bytes fed before (ghost u64, state by the invariant) + a piece of 1 byte: invariant re-established, no counter wraps, exactly the bytes below the 2^32-4 mark are consumed, processed_len exact below 2^32 and None from 2^32 on | stubs: mapping + increment logging stubs | assume: generator state invariant for `fed` (proved inductive by this lemma)
+lemma_len!(len_short_1, GShort, sym_short, 1, T_M48, 1);
+//@ h=len_short_3 props=C11,C03 cfgs=K0 tier=q t=2400 | funcs: inner::Generator<Short>::update, processed_len | bound: any history + a piece of 3 bytes (partial tail rewrite, truncation inside the piece) | stubs: mapping + increment logging stubs | assume: state invariant
+lemma_len!(len_short_3, GShort, sym_short, 1, T_M48, 3);
+//@ h=len_short_6 props=C11 cfgs=K0 tier=t t=3600 | funcs: inner::Generator<Short>::update, processed_len | bound: any history + a piece of 6 bytes | stubs: mapping + increment logging stubs | assume: state invariant
+lemma_len!(len_short_6, GShort, sym_short, 1, T_M48, 6);
+//@ h=len_normall_2 props=C11 cfgs=K0 tier=t t=3600 | funcs: inner::Generator<NormalWithLongChecksum>::update, processed_len | bound: any history + a piece of 2 bytes | stubs: mapping + increment logging stubs | assume: state invariant
+lemma_len!(len_normall_2, GNormalL, sym_normal_l, 3, T_M256, 2);
+
+// ------------------------------------------------------------------ C10: the option lattice
+
+//@ h=c10_lattice_ref props=C10 cfgs=K1 tier=q t=300 | funcs: (reference gates only) | bound: all inputs of the gate logic: more permissive options never turn acceptance into rejection; quarter implies half. Together with f_*_main (finalize == reference for every option setting, and the hash computed from the state only) this gives the lattice property of finalize_with_options
+#[kani::proof]
+#[kani::unwind(4)]
+fn c10_lattice_ref() {
+    let total: u64 = kani::any();
+    let nbsel: u8 = kani::any();
+    kani::assume(nbsel < 3);
+    let nb = match nbsel {
+        0 => 48usize,
+        1 => 128,
+        _ => 256,
+    };
+    let q3: u32 = kani::any();
+    let nonzero: usize = kani::any();
+    kani::assume(nonzero <= nb);
+    let (c0, s0, h0, k0): (bool, bool, bool, bool) = (kani::any(), kani::any(), kani::any(), kani::any());
+    let (c1, s1, h1, k1): (bool, bool, bool, bool) = (kani::any(), kani::any(), kani::any(), kani::any());
+    // o1 at least as permissive as o0
+    kani::assume((!c1 || c0) && (s1 || !s0) && (h1 || !h0) && (k1 || !k0));
+    let r0 = ref_gates(total, nb, q3, nonzero, c0, s0, h0, k0);
+    let r1 = ref_gates(total, nb, q3, nonzero, c1, s1, h1, k1);
+    if r0.is_ok() {
+        assert!(r1.is_ok());
+    }
+    // quarter implies half
+    assert!(ref_gates(total, nb, q3, nonzero, c0, s0, false, true).is_ok()
+        == ref_gates(total, nb, q3, nonzero, c0, s0, true, true).is_ok());
+    // too large is never waivable
+    if total > REF_MAX_LEN as u64 {
+        assert!(r1 == Err(GeneratorError::TooLargeInput));
+    }
+}
+
+macro_rules! c10_direct {
+    ($name:ident, $ty:ty, $sym:ident, $nb:literal, $unw:literal) => {
+        #[kani::proof]
+        #[kani::unwind($unw)]
+        #[kani::stub(<[u32]>::select_nth_unstable, stub_select)]
+        #[kani::stub(crate::length::FuzzyHashLengthEncoding::new, stub_len_new)]
+        fn $name() {
+            let stubbed = select_stub_active();
+            let len: u32 = kani::any();
+            let tail_len: u32 = kani::any();
+            kani::assume(tail_len <= 4);
+            let g: $ty = $sym(len, tail_len);
+            let mut b = [0u32; $nb];
+            b.copy_from_slice(&g.buckets.buckets[..$nb]);
+            ghost_set(&b, $nb);
+            unsafe {
+                SEL_CALLS = 0;
+                FREE_MODE = stubbed;
+                let fq: [u32; 3] = kani::any();
+                kani::assume(fq[0] <= fq[1] && fq[1] <= fq[2]);
+                FREEQ = fq;
+            }
+            let (o0, c0, p0, s0, h0, k0) = sym_options();
+            let (o1, c1, p1, s1, h1, k1) = sym_options();
+            kani::assume(p0 == p1); // same Q-ratio mode
+            kani::assume((!c1 || c0) && (s1 || !s0) && (h1 || !h0) && (k1 || !k0));
+            let r0 = g.finalize_with_options(&o0);
+            unsafe {
+                SEL_CALLS = 0;
+            }
+            let r1 = g.finalize_with_options(&o1);
+            if let Ok(h) = r0 {
+                assert!(r1 == Ok(h));
+            }
+            kani::cover!(r0.is_err() && r1.is_ok());
+            kani::cover!(r0.is_ok());
+        }
+    };
+}
+//@ h=c10_direct_short props=C10 cfgs=K1 tier=q t=1800 | funcs: inner::Generator<Short>::finalize_with_options called twice on the same state | bound: all states x all pairs of option settings o <= o' (same Q-ratio mode): Ok(h) under o => Ok(h) under o' (real code on both sides) | stubs: select_nth_unstable -> any q1<=q2<=q3 (same for both calls); FuzzyHashLengthEncoding::new contract
+c10_direct!(c10_direct_short, GShort, sym_short, 48, 52);
+
+// Boundary instances with CONCRETE len = (2^32-4) - room (cheap: no symbolic memcpy sizes).
+macro_rules! lemma_lenb {
+    ($name:ident, $ty:ty, $sym:ident, $ck:literal, $mtag:expr, $room:literal, $n:literal) => {
+        #[kani::proof]
+        #[kani::unwind(40)]
+        #[kani::stub(crate::pearson::tlsh_b_mapping_48, stub_map48)]
+        #[kani::stub(crate::pearson::tlsh_b_mapping_256, stub_map256)]
+        #[kani::stub(crate::buckets::FuzzyHashBucketsData::increment, stub_inc)]
+        fn $name() {
+            let stubbed = stubs_active();
+            let len0: u32 = (MAXL as u32) - $room;
+            let g0: $ty = $sym(len0, 4);
+            let piece: [u8; $n] = kani::any();
+            unsafe {
+                RET = kani::any();
+            }
+            log_reset();
+            let mut a = g0.clone();
+            a.update(&piece);
+            let consumed: usize = if $n < $room { $n } else { $room };
+            assert!(a.len == len0 + consumed as u32);
+            assert!(a.tail_len == 4);
+            let fed2 = len0 as u64 + 4 + $n as u64;
+            assert!(a.processed_len() == if len0 as u64 + consumed as u64 + 4 <= u32::MAX as u64 {
+                Some(len0 + consumed as u32 + 4)
+            } else {
+                None
+            });
+            // (exactness w.r.t. the bytes fed: fed2 < 2^32 implies nothing was dropped)
+            if fed2 <= u32::MAX as u64 {
+                assert!(consumed == $n);
+            } else {
+                assert!(a.processed_len().is_none());
+            }
+            if stubbed {
+                let ck0: [u8; $ck] = *g0.checksum.data();
+                let mut r = RefGen::<$ck> {
+                    win: g0.tail, tl: 4, ck: ck0, consumed: 0, j: 0, ok: true, mtag: $mtag,
+                };
+                let mut i = 0;
+                while i < consumed {
+                    r.feed(piece[i]);
+                    i += 1;
+                }
+                assert!(r.ok);
+                assert!(r.j == unsafe { LOG_N });
+                assert!(a.tail == r.win);
+                assert!(*a.checksum.data() == r.ck);
+            }
+        }
+    };
+}
+//@ h=lenb_short_r0_n3 props=C11 cfgs=K0 tier=q t=600 | funcs: inner::Generator<Short>::update, processed_len | bound: len = 2^32-4 (saturated), piece of 3 bytes: nothing consumed, no wrap, processed_len None | stubs: mapping + increment logging stubs
+lemma_lenb!(lenb_short_r0_n3, GShort, sym_short, 1, T_M48, 0, 3);
+//@ h=lenb_short_r1_n1 props=C11 cfgs=K0 tier=q t=600 | funcs: inner::Generator<Short>::update, processed_len | bound: one byte of room, piece of 1 byte (reaches exactly 2^32 bytes fed) | stubs: mapping + increment logging stubs
+lemma_lenb!(lenb_short_r1_n1, GShort, sym_short, 1, T_M48, 1, 1);
+//@ h=lenb_short_r1_n3 props=C11 cfgs=K0 tier=q t=600 | funcs: inner::Generator<Short>::update, processed_len | bound: one byte of room, piece of 3 bytes (truncated to 1; partial tail rewrite) | stubs: mapping + increment logging stubs
+lemma_lenb!(lenb_short_r1_n3, GShort, sym_short, 1, T_M48, 1, 3);
+//@ h=lenb_short_r2_n6 props=C11 cfgs=K0 tier=q t=600 | funcs: inner::Generator<Short>::update, processed_len | bound: two bytes of room, piece of 6 bytes (truncated to 2) | stubs: mapping + increment logging stubs
+lemma_lenb!(lenb_short_r2_n6, GShort, sym_short, 1, T_M48, 2, 6);
+//@ h=lenb_short_r5_n5 props=C11 cfgs=K0 tier=q t=600 | funcs: inner::Generator<Short>::update, processed_len | bound: five bytes of room, piece of 5 bytes (exact fit, full tail rewrite) | stubs: mapping + increment logging stubs
+lemma_lenb!(lenb_short_r5_n5, GShort, sym_short, 1, T_M48, 5, 5);
+//@ h=lenb_short_r5_n4 props=C11 cfgs=K0 tier=q t=600 | funcs: inner::Generator<Short>::update, processed_len | bound: five bytes of room, piece of 4 bytes (last length with Some(2^32-1)) | stubs: mapping + increment logging stubs
+lemma_lenb!(lenb_short_r5_n4, GShort, sym_short, 1, T_M48, 5, 4);
+//@ h=lenb_longl_r3_n5 props=C11 cfgs=K0 tier=q t=600 | funcs: inner::Generator<LongWithLongChecksum>::update, processed_len | bound: three bytes of room, piece of 5 bytes | stubs: mapping + increment logging stubs
+lemma_lenb!(lenb_longl_r3_n5, GLongL, sym_long_l, 3, T_M256, 3, 5);
+
+//@ h=len_processed props=C11,C03,C10 cfgs=K1 tier=q t=300 | funcs: inner::Generator::processed_len, Generator<T>::processed_len | bound: all (len, tail_len<=4): == checked u64 sum
+#[kani::proof]
+#[kani::unwind(4)]
+fn len_processed() {
+    let len: u32 = kani::any();
+    let tl: u32 = kani::any();
+    kani::assume(tl <= 4);
+    let mut g = GNormal::default();
+    g.len = len;
+    g.tail_len = tl;
+    let t = len as u64 + tl as u64;
+    assert!(g.processed_len() == if t <= u32::MAX as u64 { Some(t as u32) } else { None });
+    let fresh = GNormal::default();
+    assert!(fresh.processed_len() == Some(0) && fresh.len == 0 && fresh.tail_len == 0);
+    let k: usize = kani::any();
+    kani::assume(k < fresh.buckets.buckets.len());
+    assert!(fresh.buckets.buckets[k] == 0);
+    assert!(*fresh.checksum.data() == [0]);
+    assert!(<GNormal as GeneratorType>::MAX == REF_MAX_LEN && <GNormal as GeneratorType>::MIN == 50
+        && <GNormal as GeneratorType>::MIN_CONSERVATIVE == 128);
+    assert!(<GShort as GeneratorType>::MIN == 10 && <GShort as GeneratorType>::MIN_CONSERVATIVE == 10
+        && <GShort as GeneratorType>::MAX == REF_MAX_LEN);
+    assert!(<GLong as GeneratorType>::MIN == 50 && <GLong as GeneratorType>::MIN_CONSERVATIVE == 128
+        && <GLong as GeneratorType>::MAX == REF_MAX_LEN);
+}
+
+// ------------------------------------------------------------------ C18: generator never allocates
+unsafe fn no_alloc(_l: core::alloc::Layout) -> *mut u8 {
+    assert!(false, "heap allocation reached");
+    core::ptr::null_mut()
+}
+unsafe fn no_realloc(_p: *mut u8, _l: core::alloc::Layout, _n: usize) -> *mut u8 {
+    assert!(false, "heap reallocation reached");
+    core::ptr::null_mut()
+}
+
+macro_rules! c18_gen {
+    ($name:ident, $pubty:ty, $n:literal, $unw:literal) => {
+        #[kani::proof]
+        #[kani::unwind($unw)]
+        #[kani::stub(std::alloc::alloc, no_alloc)]
+        #[kani::stub(std::alloc::alloc_zeroed, no_alloc)]
+        #[kani::stub(std::alloc::realloc, no_realloc)]
+        #[kani::stub(<[u32]>::select_nth_unstable, stub_select)]
+        #[kani::stub(crate::length::FuzzyHashLengthEncoding::new, stub_len_new)]
+        #[kani::stub(crate::pearson::tlsh_b_mapping_48, stub_map48)]
+        #[kani::stub(crate::pearson::tlsh_b_mapping_256, stub_map256)]
+        #[kani::stub(crate::buckets::FuzzyHashBucketsData::increment, stub_inc)]
+        fn $name() {
+            // new, update (two pieces), processed_len, clone, finalize_with_options: public wrapper
+            let mut g = Generator::<$pubty>::new();
+            unsafe {
+                RET = kani::any();
+            }
+            log_reset();
+            let p1: [u8; $n] = kani::any();
+            let p2: [u8; 3] = kani::any();
+            g.update(&p1);
+            g.update(&p2);
+            assert!(g.processed_len() == Some($n + 3));
+            let c = g.clone();
+            unsafe {
+                GHOST_N = 256;
+                SEL_CALLS = 0;
+                FREE_MODE = true;
+                let fq: [u32; 3] = kani::any();
+                kani::assume(fq[0] <= fq[1] && fq[1] <= fq[2]);
+                FREEQ = fq;
+            }
+            let (o, _c, _p, _s, _h, _k) = sym_options();
+            let r = c.finalize_with_options(&o);
+            let r2 = g.finalize();
+            kani::cover!(r.is_ok());
+            kani::cover!(r.is_err());
+            core::mem::forget((r, r2));
+        }
+    };
+}
+//@ h=c18_gen_short props=C18,C17 cfgs=K1 tier=q t=1800 | funcs: Generator<Short>::{new, update, processed_len, clone, finalize_with_options, finalize} (public wrapper types) | bound: pieces of 6 and 3 bytes (any content), all option settings: allocator never reached, no panic | stubs: allocator entry points -> assert!(false); select_nth_unstable (core, cannot allocate) -> any ordered quartiles; mapping/increment logging stubs; FuzzyHashLengthEncoding::new contract
+c18_gen!(c18_gen_short, crate::hashes::Short, 6, 52);
+//@ h=c18_gen_longl props=C18,C17 cfgs=K1 tier=t t=3000 | funcs: Generator<LongWithLongChecksum>::{new, update, processed_len, clone, finalize_with_options, finalize} | bound: pieces of 5 and 3 bytes, all option settings | stubs: as c18_gen_short
+c18_gen!(c18_gen_longl, crate::hashes::LongWithLongChecksum, 5, 260);
